@@ -137,6 +137,68 @@ theorem receive_truncated_closed {mx : Nat} {strict : Bool} (hmx : validMax mx) 
   unfold receive
   rw [prefix_incomplete he mx strict hmx (hp.2 e he) n hn]
 
+/-- **Any stream.** Whatever the bytes are, a receive that returns a PDU has taken some `k` reads
+from the script, and the PDU is what `read_pdu` makes of the buffer extended by exactly those
+reads; the new buffer is what `read_pdu` left over, and the script continues after the `k` reads. -/
+theorem receive_ok_spec {mx : Nat} {strict : Bool} :
+    ∀ (chunks : List Bytes) (buf : Bytes) (p : Pdu) (buf' : Bytes) (cs' : List Bytes),
+      receive mx strict buf chunks = .ok (p, buf', cs') →
+      ∃ k, cs' = chunks.drop k ∧ readPdu mx strict (buf ++ (chunks.take k).flatten) = .ok (p, buf') := by
+  intro chunks
+  induction chunks with
+  | nil =>
+    intro buf p buf' cs' h
+    unfold receive at h
+    cases hr : readPdu mx strict buf with
+    | ok x => obtain ⟨q, rest⟩ := x; simp [hr] at h; exact ⟨0, by simp [h.2.2], by simp [hr, h.1, h.2.1]⟩
+    | inc => simp [hr] at h
+    | err e => simp [hr] at h
+  | cons c cs ih =>
+    intro buf p buf' cs' h
+    unfold receive at h
+    cases hr : readPdu mx strict buf with
+    | ok x => obtain ⟨q, rest⟩ := x; simp [hr] at h; exact ⟨0, by simp [h.2.2], by simp [hr, h.1, h.2.1]⟩
+    | err e => simp [hr] at h
+    | inc =>
+      simp only [hr] at h
+      by_cases hc : c.isEmpty = true
+      · simp [hc] at h
+      · simp only [hc] at h
+        obtain ⟨k, h1, h2⟩ := ih (buf ++ c) p buf' cs' h
+        exact ⟨k + 1, by simp [h1], by simpa using h2⟩
+
+/-- **No byte lost, none duplicated — for any stream.** After a successful receive, the bytes of the
+old buffer and script are: the returned PDU's own `6 + L` bytes, then the new buffer, then the
+remaining script. -/
+theorem receive_conserves {mx : Nat} {strict : Bool} (hmx : validMax mx) (chunks : List Bytes) (buf : Bytes)
+    (p : Pdu) (buf' : Bytes) (cs' : List Bytes) (h : receive mx strict buf chunks = .ok (p, buf', cs')) :
+    ∃ used, buf ++ chunks.flatten = used ++ (buf' ++ cs'.flatten) ∧ declaredLen used = some (used.length - 6) ∧
+      6 ≤ used.length := by
+  obtain ⟨k, h1, h2⟩ := receive_ok_spec chunks buf p buf' cs' h
+  obtain ⟨L, h3, h4, h5⟩ := read_ok_framing mx strict hmx _ p buf' h2
+  have hsplit : buf ++ chunks.flatten = (buf ++ (chunks.take k).flatten) ++ cs'.flatten := by
+    subst h1
+    rw [List.append_assoc, ← List.flatten_append, List.take_append_drop]
+  rw [hsplit]
+  generalize buf ++ (chunks.take k).flatten = X at h2 h3 h4 h5 ⊢
+  have hlen : (X.take (6 + L)).length = 6 + L := by
+    rw [List.length_take]; omega
+  refine ⟨X.take (6 + L), ?_, ?_, by omega⟩
+  · rw [h4, ← List.append_assoc, List.take_append_drop]
+  · rw [hlen]
+    match X, h3 with
+    | t :: z :: a :: b :: c :: d :: body, h3 =>
+      simp only [declaredLen, Option.some.injEq] at h3
+      have : 6 + L = (L + 5) + 1 := by omega
+      rw [this]
+      simp only [List.take_succ_cons, declaredLen, h3]
+      congr 1
+    | [], h3 => simp [declaredLen] at h3
+    | [_], h3 => simp [declaredLen] at h3
+    | [_, _], h3 => simp [declaredLen] at h3
+    | [_, _, _], h3 => simp [declaredLen] at h3
+    | [_, _, _, _], h3 => simp [declaredLen] at h3
+    | [_, _, _, _, _], h3 => simp [declaredLen] at h3
 /-- non-vacuity: a release request followed by an abort, delivered as 1 + 18 + 1 bytes -/
 example : receiveMany 16384 true 2 [] [[5], [0, 0, 0, 0, 4, 0, 0, 0, 0, 7, 0, 0, 0, 0, 4, 0, 0, 0], [0]]
     = .ok ([.releaseRQ, .abortRQ .serviceUser], [], []) := by rfl
